@@ -51,7 +51,7 @@ import random as pyrandom
 from fractions import Fraction
 
 from harness.core import ll, pl, VERIF, translated_specs
-TRANSLATED = translated_specs("VdcGen")      # doe._van_der_corput, regenerated from the source on every run (notes/TRANSLATOR.md)
+TRANSLATED = translated_specs("VdcGen", "PrimesGen")      # doe._van_der_corput, doe._primes_from_2_to (numpy front-end), regenerated from the source on every run (notes/TRANSLATOR.md)
 
 PROP = "C12"
 THEOREMS = {"Artap.Props.C12": [
